@@ -4,10 +4,9 @@ import BppModel.Generated.Constants
 Model of `bpp::IntervalConstraint` (src/Bpp/Numeric/Constraints.h:101-397).
 
 One program text, generic over `[Scalar α]` (DESIGN §2.2):
- * at `Float` the driver runs it on the very doubles the C++ sees (every double, including
-   `±inf`, is `Bound.fin x`; IEEE comparisons and additions do the rest) — bit-exact tie;
- * at `Rat` the driver runs it on dyadic inputs with `±inf` mapped to `negInf`/`posInf` —
-   exact tie of the branch structure the theorems are about;
+ * at `Float` the driver runs it on the very doubles the C++ sees — bit-exact tie;
+ * at `Rat` the driver runs it on dyadic inputs — exact tie, no rounding anywhere;
+   (in both, an infinite double is `negInf`/`posInf`, a finite one `fin x`)
  * at `ℝ` (BppProofs) the theorems are stated; `Bound ℝ` is the extended real line.
 
 A C++ `double` that can be infinite (bounds, tested values, limits) is a `Bound α`; a double
@@ -201,6 +200,31 @@ def leI (c d : Interval α) : Bool := Bound.geb c.lo d.lo && Bound.leb c.hi d.hi
 /-! ### emptiness (Constraints.h:384), repaired -/
 def isEmpty (c : Interval α) : Bool :=
   Bound.gtb c.lo c.hi || (Bound.eqb c.lo c.hi && !(c.inclLo && c.inclHi))
+
+/-! ### executable specifications evaluated by the driver on the implementation's answers
+(the theorems of BppProofs/Props/C01.lean connect them with the functions above) -/
+
+/-- lower half of the denotation: `lo < v`, or `lo = v` when the bound is included -/
+def memSpecLo (c : Interval α) (v : Bound α) : Bool := Bound.ltb c.lo v || (c.inclLo && Bound.eqb c.lo v)
+/-- upper half of the denotation -/
+def memSpecHi (c : Interval α) (v : Bound α) : Bool := Bound.ltb v c.hi || (c.inclHi && Bound.eqb v c.hi)
+/-- the denotation of the interval, written independently of `isCorrect` -/
+def memSpec (c : Interval α) (v : Bound α) : Bool := c.memSpecLo v && c.memSpecHi v
+
+/-- what `getLimit(v)` may answer: `v` itself when accepted, else the bound on `v`'s side -/
+def limitOk (c : Interval α) (v w : Bound α) : Bool :=
+  if c.memSpec v then Bound.eqb w v
+  else if Bound.leb v c.lo then Bound.eqb w c.lo else Bound.eqb w c.hi
+
+/-- the lower bound is not `+inf` and the upper bound is not `-inf` (every interval written in the
+documented bracket syntax, and every interval with finite or properly infinite bounds) -/
+def proper (c : Interval α) : Bool :=
+  (match c.lo with | .posInf => false | _ => true) && (match c.hi with | .negInf => false | _ => true)
+
+/-- wide enough for the auto-correcting setter: non-negative precision and
+`lo + precision + TINY < hi` -/
+def wide (c : Interval α) : Bool :=
+  Scalar.leb Scalar.zero c.prec && Bound.ltb (c.lo.addS (c.prec + Constants.TINY)) c.hi
 
 /-! ### the code as it was before the repairs -/
 namespace Legacy
